@@ -23,7 +23,7 @@ from vx.units._visit import opaque
 from vx.units.raccept import OPAQUE as TREE_OPAQUE
 
 PROPS = ['C02']
-RLIMIT = 100
+RLIMIT = 200
 W = 'duke/src/simple_class_writer.rs'
 CC = 'duke/src/class_constants.rs'
 T = 'duke/src/tree/'
